@@ -51,9 +51,8 @@ func vxSnapshot(m *Message) vxSnap {
 func vxUnchanged(m *Message, s vxSnap, what string) {
 	vxAssert(len(m.Raw) == len(s.raw), what+": len(Raw) unchanged")
 	vxAssert(vxSameObject(m.Raw, s.rawObj) || len(s.raw) == 0, what+": Raw is still the same buffer")
-	if w := vxWitness(len(s.raw)); w < len(s.raw) && w < len(m.Raw) {
-		vxAssert(m.Raw[w] == s.raw[w], what+": raw bytes unchanged")
-	}
+	w := vxWitness(len(s.raw)) // w == len is harmless: vxAt yields 0 on both sides
+	vxAssert(vxAt(m.Raw, w) == vxAt(s.raw, w), what+": raw bytes unchanged")
 	vxAssert(m.Length == s.length, what+": Length unchanged")
 	vxAssert(m.Type == s.typ, what+": Type unchanged")
 	vxAssert(m.TransactionID == s.tid, what+": TransactionID unchanged")
